@@ -215,8 +215,8 @@ def translate(formula):
     posonlyargs=[], args=[ast.arg(arg='rec'), ast.arg(arg='table')], vararg=None, kwonlyargs=[], kw_defaults=[],
     kwarg=None, defaults=[]), body=body, decorator_list=[], returns=None, type_comment=None, type_params=[])
   mod = ast.Module(body=[fn], type_ignores=[])
-  ast.fix_missing_locations(mod)
   try:
+    ast.fix_missing_locations(mod)
     code = compile(mod, '<c19-spec>', 'exec')
   except SyntaxError as e:
     return Spec('invalid', 'compile: %s' % (e.msg,), features=feats + ['rejected-by-compile-only'])
@@ -569,7 +569,7 @@ def expressions():
     two = st.tuples(inner, inner)
     three = st.tuples(inner, inner, inner)
     return st.one_of(
-      st.tuples(inner, st.sampled_from(['+', '-', '*', '//', '%', '/', '==', '!=', '<', '>=', 'and', 'or', 'in', 'is not']),
+      st.tuples(inner, st.sampled_from(['+', '-', '*', '//', '%', '/', '==', '!=', '<', '>=', 'and', 'or', 'in', 'not in']),
                 inner).map(lambda t: '%s %s %s' % t),
       inner.map(lambda a: '(%s)' % a),
       inner.map(lambda a: 'not %s' % a),
